@@ -23,4 +23,4 @@ one() {
   git -C /repo worktree remove --force "$WT" >/dev/null 2>&1; rm -rf "$WT"
 }
 export -f one
-printf "%s\n" "${seeds[@]}" | xargs -P 6 -I{} bash -c 'one {}' | sort
+printf "%s\n" "${seeds[@]}" | xargs -P ${PAR:-6} -I{} bash -c 'one {}' | sort
